@@ -527,6 +527,8 @@ def run_probe(fam, env, probe):
         kw = {"pairs": probe["pairs"], "dirn": probe["dirn"], "opts_svd": {"D_total": BIG_D, "tol": 1e-14}}
         if isinstance(kw["pairs"], list):
             kw["pairs"] = [(tuple(a), tuple(b)) for a, b in kw["pairs"]]
+        if "xrange" in probe:
+            kw["xrange"], kw["yrange"] = tuple(probe["xrange"]), tuple(probe["yrange"])
         res = env.measure_2site(ops[0], ops[1], **kw)
         for (k0, k1), val in res.items():
             out.append((names, [key_site(k0), key_site(k1)], val))
@@ -602,6 +604,18 @@ def plan_probes(rng, fam, kind, spec, Nx, Ny, quick, recipe=None):
         big = Nx * Ny >= 8
         pr = rng.choice(["corner <=", "row <="]) if big else rng.choice(["<=", "<=", "<", "row <=", "corner <="])
         probes.append({"fn": "measure_2site", "ops": pick_pair(), "dirn": dirn, "pairs": pr})
+    if kind == "ctm" and Nx * Ny >= 3:
+        # a window that is a proper part of the lattice (the legs towards the rest of the lattice are non-trivial)
+        for _ in range(1 if quick else 2):
+            xa = rng.randrange(Nx)
+            xb = rng.randrange(xa + 1, Nx + 1)
+            ya = rng.randrange(Ny)
+            yb = rng.randrange(ya + 1, Ny + 1)
+            if (xb - xa) * (yb - ya) < 2 or (xb - xa, yb - ya) == (Nx, Ny):
+                xa, xb, ya, yb = (0, Nx, 0, Ny - 1) if Ny > 1 and rng.random() < 0.5 else ((0, Nx - 1, 0, Ny) if Nx > 1 else (0, Nx, 0, Ny - 1))
+            if (xb - xa) * (yb - ya) >= 1:
+                probes.append({"fn": "measure_2site", "ops": pick_pair(), "dirn": rng.choice(["v", "h"]), "pairs": "<=",
+                               "xrange": [xa, xb], "yrange": [ya, yb]})
     # n-site
     odd_names = [nm for nm in sorted(fam.opt) if fam.odd(nm)]
 
@@ -632,12 +646,12 @@ def plan_probes(rng, fam, kind, spec, Nx, Ny, quick, recipe=None):
         if Nx >= 2 and Ny >= 2:
             # (on 1xN / Nx1 lattices measure_nsite_exact / measure_2x2 enlarge the window beyond the lattice and raise
             # KeyError: there is no 2x2 window; outside the domain probed here)
-            for _ in range(2 if quick else 3):
-                x0, y0 = rng.randrange(Nx - 1), rng.randrange(Ny - 1)
-                win = [(x0, y0), (x0 + 1, y0), (x0, y0 + 1), (x0 + 1, y0 + 1)]
-                for k, distinct in ((2, True), (4, True), (rng.choice([2, 3, 4]), False)):
-                    word, ss = word_on(win, k, distinct)
-                    probes.append({"fn": "measure_2x2", "ops": word, "sites": ss})
+            for x0 in range(Nx - 1):          # every 2x2 window (windows away from the lattice edge see non-trivial legs)
+                for y0 in range(Ny - 1):
+                    win = [(x0, y0), (x0 + 1, y0), (x0, y0 + 1), (x0 + 1, y0 + 1)]
+                    for k, distinct in ((4, True), (2, True), (rng.choice([2, 3, 4]), False)):
+                        word, ss = word_on(win, k, distinct)
+                        probes.append({"fn": "measure_2x2", "ops": word, "sites": ss})
             for i in range(2 if quick else 4):
                 k = rng.choice([2, 3, 4])
                 word, ss = word_on(sites, k, distinct=(i % 2 == 0))
